@@ -97,6 +97,16 @@ func count(r *vproto.Rng) int {
 }
 
 func pts(r *vproto.Rng) []geom.Point {
+	if r.Intn(8) == 0 {
+		// an explicitly closed ring / line string of 4..8 vertices (last == first, as every real polygon ring is): code that
+		// treats the closing vertex specially in one method but not in another shows here (phase 4, self-mutation Q5)
+		n := r.Range(3, 7)
+		p := make([]geom.Point, n, n+1)
+		for i := range p {
+			p[i] = pt(r)
+		}
+		return append(p, p[0])
+	}
 	n := count(r)
 	p := make([]geom.Point, n)
 	for i := range p {
